@@ -32,8 +32,8 @@ theorem members_exist :
       inRuntime membersVM r.1 r.2.1 r.2.2.1 = true ∧ inRuntime membersTree r.1 r.2.1 r.2.2.1 = true := by
   decide +kernel
 
-/-- No `Fields()` call of a representative value panicked or answered with an interrupt-free empty
-table where the analyzer offers members (a panic is dumped as a `<PANIC>` row). -/
+/-- No `Fields()` call of a representative value panicked (a panic is dumped as a `<PANIC>` row; a
+representative whose `Fields()` answers with an interrupt has no rows and fails `members_exist`). -/
 theorem no_fields_panic :
     (∀ r ∈ membersVM, r.2.1 ≠ "<PANIC>") ∧ (∀ r ∈ membersTree, r.2.1 ≠ "<PANIC>") := by
   decide +kernel
